@@ -45,6 +45,37 @@ STRUCTURE_EXCEPTIONS = OrderedDict([
 
 STRUCTURE_MODULES = ("decoder.stream", "decoder.fragment_syntax", "decoder.assertions")
 
+# Rule C01.g: the state keys / parse-code predicates on which the *evaluation*
+# of each structure check may depend (control dependence: enclosing `if` tests,
+# early returns before it, and the definitions of the locals those tests use).
+# Confirmed by reading the pinned tree; one line of reason each.  A check that
+# becomes dependent on anything else is skipped for histories it used to cover.
+ALLOWED_GUARD_DEPS = {
+    "BadParseInfoPrefix": set(),
+    "BadParseCode": set(),
+    "InconsistentNextParseOffset": {"next_parse_offset"},  # only checkable when the previous unit declared a non-zero offset
+    "MissingNextParseOffset": {"parse_code", "is_picture()", "is_fragment()"},  # mandatory for units that are neither pictures nor fragments (nor end of sequence)
+    "InvalidNextParseOffset": set(),
+    "NonZeroNextParseOffsetAtEndOfSequence": {"parse_code"},  # applies to the end-of-sequence unit
+    "InconsistentPreviousParseOffset": {"_last_parse_info_offset"},  # applies to every unit but the first
+    "NonZeroPreviousParseOffsetAtStartOfSequence": {"_last_parse_info_offset"},  # applies to the first unit
+    "GenericInvalidSequence": set(),
+    "LevelInvalidSequence": {"_level_sequence_matcher"},  # once the level is known
+    "ParseCodeNotAllowedInProfile": {"profile"},  # once the profile is known
+    "ParseCodeNotSupportedByVersion": set(),
+    "NonConsecutivePictureNumbers": {"_last_picture_number"},  # from the second picture on
+    "EarliestFieldHasOddPictureNumber": {"picture_coding_mode"},  # fields only
+    "OddNumberOfFieldsInSequence": {"picture_coding_mode"},  # fields only
+    "FragmentedPictureRestarted": {"fragment_slice_count"},  # first fragments
+    "PictureNumberChangedMidFragmentedPicture": {"fragment_slice_count"},  # slice-bearing fragments
+    "TooManySlicesInFragmentedPicture": {"fragment_slice_count"},  # slice-bearing fragments
+    "FragmentSlicesNotContiguous": {"fragment_slice_count"},  # slice-bearing fragments
+    "SequenceContainsIncompleteFragmentedPicture": set(),
+    "PictureInterleavedWithFragmentedPicture": {"is_seq_header()", "is_picture()"},  # picture data units
+    "SequenceHeaderChangedMidSequence": {"_last_sequence_header_bytes"},  # repeated headers
+    "MajorVersionTooHigh": {"_num_pictures_in_sequence", "major_version"},  # documented exception: empty sequence labelled version 3
+}
+
 
 def check(repo, tier="quick"):
     res = Result("C01")
@@ -60,6 +91,7 @@ def check(repo, tier="quick"):
     res.rule("C01.d", "each structure rule of the statement keeps a reachable, conditional raise site")
     res.rule("C01.e", "level ordering patterns: symbols are parse-code names, admit sequence_header first, and implemented language = reference language")
     res.rule("C01.f", "bookkeeping the rules depend on is updated on every normal path (offsets, picture numbers, fragment counters, level matcher)")
+    res.rule("C01.g", "the evaluation of each structure check depends only on its documented applicability conditions (control-dependence signature within the allowed set)")
 
     sf = analyses.validator_stateflow(repo)
     rule_a(repo, res, sf)
@@ -69,6 +101,8 @@ def check(repo, tier="quick"):
     rule_d(repo, res, sf)
     rule_e(repo, res)
     rule_f(repo, res)
+    rule_g(repo, res, sf)
+    res.floor("C01.g", len(STRUCTURE_EXCEPTIONS))
     res.floor("C01.a", 40)
     res.floor("C01.b", 6)
     res.floor("C01.c", 4)
@@ -496,3 +530,74 @@ def rule_f(repo, res):
 
     ex = MustFlow(seq, on5, node_types=(ast.Call, ast.If)).run().normal_exit_state()
     res.check(ex is not None and {"minimal", "odd_fields"} <= ex.must, "C01.f", "parse_sequence:end-of-sequence-checks", "%s:parse_sequence" % sm.rel, "odd-field-count and major_version minimality checks must run on every normal exit", by="must-pass-through")
+
+
+def _mentions(e, fn, depth=0, seen=None):
+    """state keys / state predicates an expression depends on, following locals
+    to their definitions (and the control dependence of those definitions)."""
+    seen = seen if seen is not None else set()
+    out = set()
+    for n in ast.walk(e):
+        k = subscript_key(n, "state") if isinstance(n, ast.Subscript) else None
+        if k:
+            out.add(k)
+        if isinstance(n, ast.Compare) and len(n.ops) == 1 and isinstance(n.ops[0], (ast.In, ast.NotIn)) and dotted(n.comparators[0]) == "state" and const_str(n.left):
+            out.add(const_str(n.left))
+        if isinstance(n, ast.Call) and dotted(n.func) == "state.get" and n.args and const_str(n.args[0]):
+            out.add(const_str(n.args[0]))
+        if isinstance(n, ast.Call) and isinstance(n.func, ast.Name) and any(dotted(a) == "state" for a in n.args):
+            out.add(n.func.id + "()")
+        if isinstance(n, ast.Name) and isinstance(n.ctx, ast.Load) and n.id not in seen and depth < 4 and n.id != "state":
+            seen.add(n.id)
+            for a in ast.walk(fn):
+                if isinstance(a, ast.Assign) and any(isinstance(t, ast.Name) and t.id == n.id for t in a.targets):
+                    out |= _mentions(a.value, fn, depth + 1, seen)
+                    out |= _guard_signature(a, fn, depth + 1, seen)
+    return out
+
+
+def _guard_signature(node, fn, depth=0, seen=None):
+    """control dependence of `node` inside fn: enclosing if-tests (either arm)
+    and the tests of earlier statements in enclosing blocks that leave the
+    function/loop normally (return / continue / break) -- raising exits reject
+    the stream anyway and do not count."""
+    out = set()
+    c = node
+    p = getattr(node, "_parent", None)
+    while p is not None:
+        if isinstance(p, ast.If) and (any(c is x for x in p.body) or any(c is x for x in p.orelse)):
+            out |= _mentions(p.test, fn, depth, seen)
+        for field in ("body", "orelse", "finalbody"):
+            blk = getattr(p, field, None)
+            if isinstance(blk, list) and any(c is x for x in blk):
+                for prev in blk[: [i for i, x in enumerate(blk) if x is c][0]]:
+                    if isinstance(prev, ast.If):
+                        exits = [x for x in ast.walk(prev) if isinstance(x, (ast.Return, ast.Continue, ast.Break))]
+                        if exits:
+                            out |= _mentions(prev.test, fn, depth, seen)
+        if p is fn:
+            break
+        c = p
+        p = getattr(p, "_parent", None)
+    return out
+
+
+def rule_g(repo, res, sf):
+    sites = raise_sites(repo, sf)
+    for cls in STRUCTURE_EXCEPTIONS:
+        allowed = ALLOWED_GUARD_DEPS.get(cls)
+        where = "vc2_conformance/decoder"
+        if allowed is None:
+            res.bad("C01.g", "deps:%s" % cls, where, "no applicability table entry for %s" % cls)
+            continue
+        lst = sites.get(cls, [])
+        if not lst:
+            continue  # C01.d reports the missing site
+        for m, fn, node, kind in lst:
+            chk = node
+            if isinstance(node, ast.Raise):
+                p = getattr(node, "_parent", None)
+                chk = p if isinstance(p, ast.If) else node
+            sig = _guard_signature(chk, fn)
+            extra = sorted(sig - allowed)
+            res.check(not extra, "C01.g", "deps:%s@%s" % (cls, fn.name), "%s:%s" % (m.rel, fn.name), "whether the %s check is evaluated now also depends on %s (allowed: %s): histories where that condition fails are no longer checked" % (cls, extra, sorted(allowed)), by="depends only on %s" % (sorted(sig) or "nothing"))
